@@ -105,15 +105,17 @@ func runLaneBody(fn *ssa.Function, env laneEnv) laneResult {
 		}
 		return pval{}, false
 	}
-	// a handler with a lane loop is followed through its first iteration only
+	// a handler with a lane loop is followed through its first iteration only; loops inside the
+	// lane body (bit reversal, byte permutation) run to their end
+	e.laneHeaders = map[*ssa.BasicBlock]bool{}
 	for _, b := range fn.Blocks {
 		for _, in := range b.Instrs {
-			if phi, ok := in.(*ssa.Phi); ok {
-				for _, ed := range phi.Edges {
-					if bo, ok := ed.(*ssa.BinOp); ok && bo.Op == token.ADD && bo.X == ssa.Value(phi) {
-						e.hasLaneLoop = true
-					}
-				}
+			name, cc := stateMethod(in)
+			if name != "ReadOperand" && name != "WriteOperand" && name != "ReadOperandBytes" && name != "WriteOperandBytes" {
+				continue
+			}
+			if phi := ivOf(cc.Args[1]); phi != nil {
+				e.laneHeaders[phi.Block()] = true
 			}
 		}
 	}
@@ -374,6 +376,107 @@ func bitSpecs() []bitSpec {
 					}
 				}
 				out = append(out, bitScenario{env: laneEnv{srcs: map[string]pval{"Src0": symSrc("S0"), "Src1": symSrc("S1"), "Src2": constSrc(k)}}, want: want, w: 32, desc: fmt.Sprintf("shift %#x", k)})
+			}
+			return out
+		}})
+	specs = append(specs, bitSpec{
+		re:   regexp.MustCompile(`^[sv]_bfm_b(32|64)$`),
+		what: "bit-field mask",
+		gen: func(m []string) []bitScenario {
+			w := widthOfSuffix(m[1])
+			var out []bitScenario
+			for _, a := range []uint64{0, 1, 7, 31, 32, 33, 63, 0xFFFFFFC5} {
+				for _, b := range []uint64{0, 3, 31, 32, 40, 63, 0xFFFFFF82} {
+					cnt, off := a&uint64(w-1), b&uint64(w-1)
+					var v uint64
+					if cnt < 64 {
+						v = (uint64(1)<<cnt - 1) << off
+					}
+					out = append(out, bitScenario{env: laneEnv{srcs: map[string]pval{"Src0": constSrc(a), "Src1": constSrc(b)}}, want: constSrc(v).trunc(w), w: w, desc: fmt.Sprintf("width %#x offset %#x", a, b)})
+				}
+			}
+			return out
+		}})
+	specs = append(specs, bitSpec{
+		re:   regexp.MustCompile(`^(s_brev|v_bfrev)_b(32|64)$`),
+		what: "bit reversal",
+		gen: func(m []string) []bitScenario {
+			w := widthOfSuffix(m[2])
+			want := pval{kind: pVec, w: w}
+			s0 := symSrc("S0")
+			for i := 0; i < 64; i++ {
+				if i < w {
+					want.bits[i] = s0.bits[w-1-i]
+				} else {
+					want.bits[i] = pbit{k: '0'}
+				}
+			}
+			return []bitScenario{{env: laneEnv{srcs: map[string]pval{"Src0": symSrc("S0")}}, want: want, w: w, desc: "S0 symbolic"}}
+		}})
+	specs = append(specs, bitSpec{
+		re:   regexp.MustCompile(`^s_cselect_b(32|64)$`),
+		what: "scalar select",
+		gen: func(m []string) []bitScenario {
+			w := widthOfSuffix(m[1])
+			var out []bitScenario
+			for _, scc := range []uint64{0, 1} {
+				want := symSrc("S1").trunc(w)
+				if scc == 1 {
+					want = symSrc("S0").trunc(w)
+				}
+				out = append(out, bitScenario{env: laneEnv{scc: scc, srcs: map[string]pval{"Src0": symSrc("S0"), "Src1": symSrc("S1")}}, want: want, w: w, desc: fmt.Sprintf("SCC = %d", scc)})
+			}
+			return out
+		}})
+	specs = append(specs, bitSpec{
+		re:   regexp.MustCompile(`^s_movk_i32$`),
+		what: "move of a sign-extended 16-bit immediate",
+		gen: func(m []string) []bitScenario {
+			want := pval{kind: pVec, w: 32}
+			k := symSrc("K")
+			for i := 0; i < 64; i++ {
+				switch {
+				case i < 16:
+					want.bits[i] = k.bits[i]
+				case i < 32:
+					want.bits[i] = k.bits[15]
+				default:
+					want.bits[i] = pbit{k: '0'}
+				}
+			}
+			// the decoder delivers SIMM16 zero-extended: bits above 15 are 0
+			imm := symSrc("K").trunc(16)
+			imm.w = 64
+			return []bitScenario{{env: laneEnv{srcs: map[string]pval{"SImm16": imm}}, want: want, w: 32, desc: "SIMM16 symbolic"}}
+		}})
+	specs = append(specs, bitSpec{
+		re:   regexp.MustCompile(`^v_lshl_or_b32$`),
+		what: "shift-left-and-or",
+		gen: func(m []string) []bitScenario {
+			var out []bitScenario
+			for _, k := range []uint64{0, 1, 16, 31, 32 + 5, 0xFFFFFFE2} {
+				for _, p := range patternsFor[32] {
+					want := bvOp(token.OR, bvShift(symSrc("S0"), 32, int(k&31), true, false), constSrc(p), 32)
+					out = append(out, bitScenario{env: laneEnv{srcs: map[string]pval{"Src0": symSrc("S0"), "Src1": constSrc(k), "Src2": constSrc(p)}}, want: want, w: 32, desc: fmt.Sprintf("shift %#x, S2 = %#x", k, p)})
+				}
+			}
+			return out
+		}})
+	specs = append(specs, bitSpec{
+		re:   regexp.MustCompile(`^s_bitset(0|1)_b(32|64)$`),
+		what: "single-bit set / clear",
+		gen: func(m []string) []bitScenario {
+			w := widthOfSuffix(m[2])
+			var out []bitScenario
+			for _, k := range []uint64{0, 1, 31, 32, 45, 63, 0xFFFFFFC7} {
+				n := int(k & uint64(w-1))
+				want := symSrc("D").trunc(w)
+				if m[1] == "1" {
+					want.bits[n] = pbit{k: '1'}
+				} else {
+					want.bits[n] = pbit{k: '0'}
+				}
+				out = append(out, bitScenario{env: laneEnv{srcs: map[string]pval{"Src0": constSrc(k), "Dst": symSrc("D")}}, want: want, w: w, desc: fmt.Sprintf("bit index %#x", k)})
 			}
 			return out
 		}})
